@@ -33,7 +33,7 @@ TARGETS = {
     'hostkeytest.py': (None, ['C11', 'C19', 'C03', 'C17', 'C09']),
     'gextest.py': (['run', '_send_init', 'reconnect'], ['C19', 'C09', 'C12']),
     'dheat.py': (['dh_rate_test', '_dh_rate_test'], ['C19']),
-    'ssh2_kexdb.py': (['get_db', 'thread_exit'], ['C07', 'C17', 'C03']),
+    'ssh2_kexdb.py': (['get_db', 'thread_exit'], ['C07', 'C17', 'C03', 'C04', 'C02']),
     'outputbuffer.py': (None, ['C15', 'C01', 'C08']),
     'auditconf.py': (None, ['C18', 'C15']),
 }
